@@ -165,6 +165,20 @@ pub fn g3() -> Vec<FamGrammar> {
         let alphabet = vec![("a".to_string(), "identifier".to_string()), ("b".to_string(), "identifier".to_string()), lit(";")];
         out.push(FamGrammar { id: g.name.clone(), g, alphabet, has_ws_extras: true, kind: "G3", op_table: None });
     }
+    // the two readings differ by their own dynamic precedence and sit inside a production that carries a dynamic precedence
+    // of its own (positive, negative, larger than the difference): the enclosing one must not tip the choice
+    for (vi, (outer, d1, d2)) in [(2, 0, 1), (1, 0, 1), (-2, 1, 0), (2, 1, 0), (-1, 1, 0), (0, 0, 1), (3, 1, 2), (-3, 2, 1)].iter().enumerate() {
+        let g = G::new(&format!("g3_outer_{}", vi))
+            .conflict(&["first", "second"])
+            .rule("program", rep(sym("statement")))
+            .rule("statement", prec_dyn(*outer, seq(vec![sym("_item"), s(";")])))
+            .rule("_item", choice(vec![sym("first"), sym("second")]))
+            .rule("first", prec_dyn(*d1, seq(vec![sym("identifier"), sym("identifier")])))
+            .rule("second", prec_dyn(*d2, seq(vec![sym("identifier"), sym("identifier")])))
+            .rule("identifier", pat("[a-z]+"));
+        let alphabet = vec![("a".to_string(), "identifier".to_string()), ("b".to_string(), "identifier".to_string()), lit(";")];
+        out.push(FamGrammar { id: g.name.clone(), g, alphabet, has_ws_extras: true, kind: "G3", op_table: None });
+    }
     // ambiguous-looking call vs parenthesised declarator, resolved by dynamic precedence
     for (vi, dp) in [1, -1].iter().enumerate() {
         let g = G::new(&format!("g3_call_{}", vi))
